@@ -177,7 +177,11 @@ func (spyHarness) Gen(seed uint64, prop, tier string) *simkit.Program {
 			stalled = 0
 			pubsInStall = 0
 		case 4:
-			add("disc", int64(r.Intn(6)), 0)
+			if stalled == 0 && r.P(0.4) {
+				add("discrace", int64(r.Intn(6)), int64(r.Intn(len(spyEmitters))))
+			} else {
+				add("disc", int64(r.Intn(6)), 0)
+			}
 		case 5:
 			add("pubbad", int64(r.Intn(40)), 0)
 		}
@@ -441,6 +445,69 @@ func (h spyHarness) Exec(p *simkit.Program) *simkit.Result {
 					checkStreams()
 				}
 				log.Add("%s %d", st.Op, st.A)
+			case "discrace":
+				// a client goes away while Publish is in the middle of its walk over the subscribers
+				// (parked on another, briefly slow one); the slow one then reads on. Nobody may crash,
+				// the slow subscriber gets everything in order and the departed one is removed.
+				if !lockFree("registration-blocked") || anyStalled(nil) {
+					break
+				}
+				var plain []*spySub
+				for _, x := range live() {
+					if len(x.filters) == 0 && !x.badFilt {
+						plain = append(plain, x)
+					}
+				}
+				if len(plain) < 2 {
+					break
+				}
+				slow, leaver := plain[int(st.A)%len(plain)], plain[(int(st.A)+1)%len(plain)]
+				slow.stream.mu.Lock()
+				slow.stream.stalled, slow.stream.gate, slow.everStalled = true, make(chan struct{}), true
+				slow.stream.mu.Unlock()
+				em := spyEmitters[int(st.B)%len(spyEmitters)]
+				var pend []bool
+				for k := 0; k < 3; k++ {
+					b := spyVAA(int(st.B), 100000+int64(i)*10+int64(k))
+					for _, x := range live() {
+						if m := matches(x, em); m > 0 {
+							x.expected = append(x.expected, b)
+							x.mult = append(x.mult, m)
+						}
+					}
+					pend = append(pend, false)
+					kk := k
+					go func() {
+						_ = s.Publish(b)
+						pend[kk] = true
+					}()
+					synctest.Wait()
+				}
+				// the first two went through (one in the slow client's hands, one in its queue), the
+				// third is parked inside Publish
+				leaver.stream.cancel()
+				synctest.Wait()
+				leaver.gone = true
+				slow.stream.mu.Lock()
+				slow.stream.stalled = false
+				close(slow.stream.gate)
+				slow.stream.mu.Unlock()
+				synctest.Wait()
+				synctest.Wait()
+				stats.Fault("disconnect-during-publish")
+				if !pend[0] || !pend[1] || !pend[2] {
+					violate("publish-never-completed-after-resume", "a publication that waited for a slow subscriber did not complete after that subscriber read on (another client had disconnected meanwhile)")
+					stuck = true
+					break
+				}
+				if !lockFree("removal-blocked") {
+					break
+				}
+				if !leaver.returned {
+					violate("removal-blocked", "subscriber %d disconnected during a publication and its handler never returned", leaver.id)
+				}
+				checkStreams()
+				log.Add("discrace slow=%d leaver=%d", slow.id, leaver.id)
 			case "disc":
 				l := live()
 				if len(l) == 0 {
